@@ -184,17 +184,17 @@ func allReentrancy(t *etree) (ok bool, detail string) {
 		}
 		return strings.Join(sb, ",")
 	}
+	defer func() {
+		if e := recover(); e != nil {
+			ok, detail = false, fmt.Sprint("panic: ", e)
+		}
+	}()
 	var ref []error
 	for e := range cfgerrors.All(err) {
 		ref = append(ref, e)
 	}
 	want := ids(ref)
 	budget := (len(ref)+2)*(len(ref)+2) + 16
-	defer func() {
-		if e := recover(); e != nil {
-			ok, detail = false, fmt.Sprint("panic: ", e)
-		}
-	}()
 	seq := cfgerrors.All(err)
 	var again []error
 	for e := range seq {
